@@ -112,3 +112,96 @@ Proof.
   - apply nal_of_bits_unit_ok; [discriminate|exact K1|exact D1].
   - apply nal_of_bits_unit_ok; [discriminate|exact K2|exact D2].
 Qed.
+
+(* ---- a slice after its parameter sets ---- *)
+From H264 Require Import Model.Show Model.Slice Model.ShowSlice Spec.SyntaxSlice Proofs.SliceInv Proofs.C14_proofs.
+
+Lemma ctx_ok_put_sps c x : ctx_ok c -> inv_sps x -> ctx_ok (put_seq_param_set c x).
+Proof.
+  intros [Hs Hp] Hx. split; [apply ctx_sps_ok_put; assumption|].
+  intros id q Hq. unfold pps_by_id in *. rewrite sps_put_keeps_pps in Hq. apply (Hp id q Hq).
+Qed.
+
+Lemma ctx_ok_put_pps c p : ctx_ok c -> inv_pps c p -> ctx_ok (put_pic_param_set c p).
+Proof.
+  intros [Hs Hp] Hi. split.
+  - intros id sp Hl. unfold sps_by_id in *. rewrite pps_put_keeps_sps in Hl. apply (Hs id sp Hl).
+  - intros id q Hq. destruct (N.eq_dec id (pic_parameter_set_id p)) as [->|Hne].
+    + rewrite pps_lookup_after_put in Hq. injection Hq as <-.
+      destruct Hi as (_ & _ & _ & _ & H1 & _ & _ & H2 & _). split; assumption.
+    + rewrite (pps_lookup_other c p id Hne) in Hq. apply (Hp id q Hq).
+Qed.
+
+Lemma wf_pps_inv c p plists : ctx_sps_ok c -> wf_pps c p plists -> inv_pps c p.
+Proof.
+  intros Hc H. pose proof (pps_from_bits_inv c (mk_src (enc_pps p plists ++ trailing_bits 0) TEof) Hc) as Hi.
+  rewrite (PpsRoundtrip.pps_roundtrip c p plists 0 Hc H) in Hi. exact Hi.
+Qed.
+
+Lemma parse_alone_slice c hdr bits h sid pid s' :
+  nal_header_new hdr = Some hdr -> (nal_unit_type_id hdr = 1 \/ nal_unit_type_id hdr = 5) ->
+  slice_header_read c hdr (bitsrc_of_source (SrcNal true [nal_of_bits hdr bits])) = OK ((h, sid, pid), s') ->
+  parse_in_ctx c (mk_inv [nal_of_bits hdr bits] true)
+  = (("slice:ok:" ++ show_slice_header h ++ ";" ++ show_N sid ++ ";" ++ show_N pid)%string, c).
+Proof.
+  intros Hh Ht H. unfold parse_in_ctx. unfold inv_bytes. cbn [inv_chunks concat]. unfold nal_of_bits at 1. cbn [app].
+  rewrite Hh. destruct Ht as [Ht|Ht]; rewrite Ht.
+  - change (1 =? 7) with false. change (1 =? 8) with false. change (1 =? 6) with false. change ((1 =? 1) || (1 =? 5))%bool with true.
+    cbv iota. rewrite H. reflexivity.
+  - change (5 =? 7) with false. change (5 =? 8) with false. change (5 =? 6) with false. change ((5 =? 1) || (5 =? 5))%bool with true.
+    cbv iota. rewrite H. reflexivity.
+Qed.
+
+(* SPS, PPS, then a slice that names them: pushed in any pieces, the handler reports the three parses of the structures
+   (the slice header read in the context the two parameter sets left) and the context holds both parameter sets *)
+Theorem stream_sps_pps_slice x lists k1 p plists k2 hdr pp sp h ab em d k3 n1 n2 n3 t cs ctx0 pre :
+  let c1 := put_seq_param_set ctx0 x in
+  let c2 := put_pic_param_set c1 p in
+  let u1 := nal_of_bits 103 (enc_sps x lists ++ trailing_bits k1) in
+  let u2 := nal_of_bits 104 (enc_pps p plists ++ trailing_bits k2) in
+  let u3 := nal_of_bits hdr (enc_slice_header hdr pp sp h ab em ++ d ++ trailing_bits k3) in
+  wf_sps x lists -> ctx_ok ctx0 -> wf_pps c1 p plists -> wf_slice c2 hdr pp sp h ab ->
+  (k1 < 8)%nat -> (k2 < 8)%nat -> (k3 < 8)%nat ->
+  (8 | N.of_nat (length (enc_sps x lists ++ trailing_bits k1))) ->
+  (8 | N.of_nat (length (enc_pps p plists ++ trailing_bits k2))) ->
+  (8 | N.of_nat (length (enc_slice_header hdr pp sp h ab em ++ d ++ trailing_bits k3))) ->
+  hdr <> 0 -> nal_header_new hdr = Some hdr -> (nal_unit_type_id hdr = 1 \/ nal_unit_type_id hdr = 5) ->
+  any_one (List.tl (d ++ trailing_bits k3)) = true ->
+  (t = 0%nat \/ 3 <= t)%nat ->
+  concat cs = annexb_encode [(n1, u1); (n2, u2); (n3, u3)] t ->
+  let r := pipeline_run ctx0 [] pre (map APush cs ++ [AReset]) in
+  ps_ctx (fst r) = c2 /\
+  exists invs,
+    snd r = pre ++ fst (lines_of ctx0 (map contiguous invs)) /\
+    complete_parses ctx0 invs =
+      ([("sps:ok:" ++ show_sps x)%string; ("pps:ok:" ++ show_pps p)%string;
+        ("slice:ok:" ++ show_slice_header h ++ ";" ++ show_N (pps_seq_parameter_set_id pp) ++ ";" ++ show_N (pic_parameter_set_id pp))%string], c2).
+Proof.
+  intros c1 c2 u1 u2 u3 Hx Hc0 Hp Hsl K1 K2 K3 D1 D2 D3 Hh0 Hh Hty Hany Ht Hcat.
+  assert (Hc1 : ctx_ok c1) by (apply ctx_ok_put_sps; [exact Hc0|apply (wf_sps_inv x lists Hx)]).
+  assert (Hc2 : ctx_ok c2) by (apply ctx_ok_put_pps; [exact Hc1|apply (wf_pps_inv c1 p plists (proj1 Hc1) Hp)]).
+  assert (O1 : unit_ok u1) by (apply nal_of_bits_unit_ok; [discriminate|exact K1|exact D1]).
+  assert (O2 : unit_ok u2) by (apply nal_of_bits_unit_ok; [discriminate|exact K2|exact D2]).
+  assert (O3 : unit_ok u3).
+  { subst u3. rewrite app_assoc in D3 |- *. apply nal_of_bits_unit_ok; [exact Hh0|exact K3|exact D3]. }
+  assert (Hu : Forall (fun u : nat * list byte => unit_ok (snd u)) [(n1, u1); (n2, u2); (n3, u3)])
+    by (constructor; [exact O1|constructor; [exact O2|constructor; [exact O3|constructor]]]).
+  assert (Hcl : Forall (fun u : nat * list byte => exists q, unescape (skipn 1 (snd u)) = Some q) [(n1, u1); (n2, u2); (n3, u3)])
+    by (constructor; [apply nal_of_bits_clean|constructor; [apply nal_of_bits_clean|constructor; [apply nal_of_bits_clean|constructor]]]).
+  assert (Hne : forall hh b, nal_of_bits hh b <> []) by (intros; discriminate).
+  assert (Halone : alone_all ctx0 [u1; u2; u3] =
+      ([("sps:ok:" ++ show_sps x)%string; ("pps:ok:" ++ show_pps p)%string;
+        ("slice:ok:" ++ show_slice_header h ++ ";" ++ show_N (pps_seq_parameter_set_id pp) ++ ";" ++ show_N (pic_parameter_set_id pp))%string], c2)).
+  { cbn [alone_all]. subst u1 u2 u3.
+    rewrite (parse_alone_sps ctx0 _ x).
+    2:{ apply (sps_nal_roundtrip x lists k1 103 _ [] Hx D1 (Hne _ _) (Forall_nil _)). cbn [concat]. apply app_nil_r. }
+    cbn [fst snd]. fold c1. rewrite (parse_alone_pps c1 _ p).
+    2:{ apply (pps_nal_roundtrip c1 p plists k2 104 _ [] (proj1 Hc1) Hp D2 (Hne _ _) (Forall_nil _)). cbn [concat]. apply app_nil_r. }
+    cbn [fst snd]. fold c2.
+    rewrite (parse_alone_slice c2 hdr _ h (pps_seq_parameter_set_id pp) (pic_parameter_set_id pp) (mk_src (d ++ trailing_bits k3) TEof) Hh Hty).
+    2:{ apply (slice_nal_roundtrip c2 hdr pp sp h ab em (d ++ trailing_bits k3) _ [] Hc2 Hsl Hany D3 (Hne _ _) (Forall_nil _)). cbn [concat]. apply app_nil_r. }
+    reflexivity. }
+  cbv zeta. destruct (pipeline_end_to_end _ t cs ctx0 pre Hu Ht Hcl Hcat) as (invs & _ & Hout & Hcp & Hctx).
+  cbn [map snd] in Hcp, Hctx. rewrite Halone in Hcp, Hctx. split; [exact Hctx|].
+  exists invs. split; [exact Hout|exact Hcp].
+Qed.
